@@ -30,6 +30,7 @@ def sites(arch):
     for tmpl, kind, _ in EXTRA_SITES[arch]:
         out.append((tmpl, (lambda t, tmpl=tmpl: "  " + tmpl.format(t)), kind))
     out += [("@db", lambda t: f"@db 1, {t}, 2", "b"), ("@dw", lambda t: f"@dw {t}, 3", "w"),
+            ("@db last", lambda t: f"@db 1, {t}", "b"), ("@dw last", lambda t: f"@dw 3, {t}", "w"), ("@dw only", lambda t: f"@dw {t}", "w"),
             ("@ds fill", lambda t: f"@ds 3, {t}", "b"), ("@assert", lambda t: f"@assert {t} == {t}", "a"),
             ("@assert0", lambda t: f"@assert {t} - {t}", "a")]
     return out
@@ -57,6 +58,11 @@ def run(tier, seed):
                         lines.append(A.case_line(cid, arch, {"/m.asm": src}, opts="links"))
                         meta.append((cid, arch, name, kind, v, chained, vn, src))
     impl, model = A.run_both(lines)
+    top_render = {}
+    for arch in ("6502", "z80", "sm83"):
+        for name, render, kind in sites(arch):
+            if kind != "r":
+                top_render[name] = render
     groups = {}
     for cid, arch, name, kind, v, chained, vn, src in meta:
         im = A.parse_impl(impl.get(cid))
@@ -101,6 +107,45 @@ def run(tier, seed):
             chk.violation(f"later:{arch}:{name}:{'chain' if chained else 'direct'}", f"{bad}; site `{name}` value {v} ({'chained' if chained else 'direct'} definition)\n{g['after'][1]}",
                           {"arch": arch, "source": g["after"][1], "source_before": g["before"][1], "impl_after": {k: x for k, x in a.items() if k != 'msg'},
                            "impl_before": {k: x for k, x in b.items() if k != 'msg'}})
+    # the same sites placed so that the statement ends exactly at the top of memory ($10000): the
+    # deferred form must still be accepted there, and rejected one byte further up, like the immediate one
+    top_lines, top_meta = [], []
+    for (arch, name, v, chained), g in groups.items():
+        b = g["before"][0]
+        if chained or b["kind"] != "OK" or name not in top_render:
+            continue
+        ln = len(b["bytes"]) // 2 - 1              # the statement itself (the run above appends one @db)
+        if ln <= 0:
+            continue                                # (@assert places nothing; `@org $10000` is not a placement)
+        vt = f"${v:x}" if v >= 0 else f"-{-v}"
+        for d in (0, 1):
+            body = f"@org ${0x10000 - ln + d:x}\n" + top_render[name]("sym") + "\n"
+            for vn, src in (("before", f"@defl sym, {vt}\n" + body), ("after", body + f"@defl sym, {vt}\n")):
+                cid = f"t{len(top_lines)}"
+                top_lines.append(A.case_line(cid, arch, {"/m.asm": src}))
+                top_meta.append((cid, arch, name, v, d, vn, src))
+    timpl, tmodel = A.run_both(top_lines)
+    tg = {}
+    for cid, arch, name, v, d, vn, src in top_meta:
+        im = A.parse_impl(timpl.get(cid))
+        mo = A.parse_model(tmodel.get(cid))
+        chk.evaluations += 1
+        chk.distinct.add(("top", arch, name, v, d, vn))
+        if not A.agree(im, mo):
+            chk.disagreements.append({"src": src, "impl": str(im)[:200], "model": str(mo)[:200]})
+        tg.setdefault((arch, name, v, d), {})[vn] = (im, src)
+    for (arch, name, v, d), g in tg.items():
+        b, a = g["before"][0], g["after"][0]
+        bad = None
+        if b["kind"] != a["kind"]:
+            bad = f"at the top of memory (end at $10000{'+1' if d else ''}): defined first {b['kind']} {b.get('cls', '')}, defined later {a['kind']} {a.get('cls', '')}"
+        elif b["kind"] == "OK" and b["bytes"] != a["bytes"]:
+            bad = f"at the top of memory: defined first gives {b['bytes']}, defined later gives {a['bytes']}"
+        elif d == 0 and b["kind"] != "OK":
+            bad = f"a statement ending exactly at $10000 is rejected ({b.get('cls')})"
+        if bad:
+            chk.violation(f"top:{arch}:{name}:{d}", f"{bad}; site `{name}` value {v}\n{g['after'][1]}",
+                          {"arch": arch, "source": g["after"][1], "source_before": g["before"][1]})
     # constructs that need their value immediately
     now_cases = []
     for arch in ("6502", "z80", "sm83"):
